@@ -12,6 +12,12 @@ func AllRules() []*Rule {
 	rs = append(rs, fmtRules()...)
 	rs = append(rs, travRules()...)
 	rs = append(rs, miscRules()...)
+	rs = append(rs, gramRules()...)
+	rs = append(rs, panicRules()...)
+	rs = append(rs, nilRules()...)
+	rs = append(rs, termRules()...)
+	rs = append(rs, freshRules()...)
+	rs = append(rs, autoidxRule())
 	return rs
 }
 
@@ -111,5 +117,20 @@ func init() {
 	Props["C10"] = PropInfo{
 		Explanation: "GRAM: every grammar value the parser reports is defined by the element's own production; ROWIDALIAS: the rowid-alias decision table and its call sites; IDXCOL: collation inheritance with a case-insensitive column lookup; SCHEMA-err via ERR-1/2 exceptions (unparseable table ⇒ error, unparseable index ⇒ omitted); AUTOIDX: the automatic-index counter advances only when an index was added (rowid tables).",
 		NotDecided:  "Automatic-index de-duplication and appended key columns beyond the counter discipline — SQLite catalogue rules implemented as name arithmetic.",
+	}
+}
+
+func init() {
+	Props["C05"] = PropInfo{
+		Explanation: "PANIC: every index, slice, division, make, byte-order read, non-comma-ok assertion and explicit panic in the API-reachable functions (goyacc skeleton excepted) is discharged on every path reaching it (path enumeration with loop generations) by a difference-constraint prover fed with the path's branch literals, definitions, checked callee contracts, preconditions proven at every call site and field invariants proven at every store; NIL: results of functions that may return nil are dereferenced only under a non-nil test or after a validating loop; TERM-1: every call-graph cycle spends recursion budget; TERM-2: every loop is a range, progress, shrink or bounded-growth loop; CONTRACT: the contracts themselves; GRAM-0: parser value-stack indices.",
+		NotDecided:  "The magnitude of bounds (a self-referencing interior page is re-traversed exponentially often before the budget runs out; a 2 GiB declared payload is `bounded`), stack depth of readQuoted on megabytes of doubled quotes, memory use of the page cache; mutation of a field by a callee between a length test and its use is not tracked (no such pattern on the tree).",
+	}
+	Props["C16"] = PropInfo{
+		Explanation: "local: GRAM-0/1 (every semantic value is defined by its own production; stale value-stack slots are reported with the production that can leak into them); deterministic: GLOB-1 over package sql (keyword/operator maps, parser tables and flags never written after init) and GRAM-3 (fresh lexer and parser per Parse); total: PANIC over the tokenizer, lexer, sql.go helpers and (through GRAM-0) the action switch, TERM-1/2 for the tokenizer loops and readQuoted's recursion.",
+		NotDecided:  "That accepted statements are SQLite's language; the multi-byte bareword advance in tokenize (wrong tokens or an error, never a panic).",
+	}
+	Props["C18"] = PropInfo{
+		Explanation: "FRESH: every []byte stored through a *[]byte destination or returned by a scan helper has only fresh origins (make, string conversion, append onto nil/fresh), the file pager returns fresh buffers; SCANPURE: scanning never stores into the row; PANIC/CONTRACT: every row index is guarded, type-switch defaults are dead given the producers (REC-table, ROWMAP); CONV: the constants of the documented conversions (base 10, 64 bit, 'g'/-1, the two time layouts, unix seconds) and zero values for NULL/missing columns.",
+		NotDecided:  "The numerical content of strconv/time conversions and float→int edge cases.",
 	}
 }
